@@ -8,6 +8,8 @@ PAT=${1:-*}
 [ -z "$(git -C /repo status --porcelain --untracked-files=no)" ] || { echo "/repo has local changes"; exit 2; }
 for d in "$VERIF"/seeded/$PAT/; do
   id=$(basename "$d"); prop=${id%%-*}
+  # a change written against one property may be observable only through another property's check (file `checks` names it)
+  [ -f "$d/checks" ] && prop=$(cat "$d/checks")
   if ! git -C /repo apply --check "$d/patch.diff" 2>/dev/null; then echo "$id DOES-NOT-APPLY"; continue; fi
   git -C /repo apply "$d/patch.diff"
   out=$("$VERIF/check" "$prop" --tier quick 2>&1); rc=$?
